@@ -8,6 +8,9 @@ Steps (everything in a fresh scratch worktree of /repo, removed afterwards):
   2. run the demonstration with the change (must exit != 0) and without it (must exit 0)
   3. run the given checks (default: the property's own) against the changed tree (VP_REPO)
   4. with --keep: store patch, demonstration and meta.json under /verif/seeded/<pid>-<x>/
+
+  tools/seed_eval.py --stored c05-2a [--checks ...]   re-runs the checks (and the demonstration)
+  for a change already stored under /verif/seeded/ and refreshes the 'checks' part of its meta.json
 """
 import json
 import os
@@ -26,7 +29,50 @@ def sh(cmd, cwd=None, env=None, timeout=None):
     return r.returncode, r.stdout
 
 
+def stored(name, args):
+    d = os.path.join(ROOT, 'seeded', name)
+    meta = json.load(open(os.path.join(d, 'meta.json')))
+    checks = [meta['breaks']]
+    if '--checks' in args:
+        checks = args[args.index('--checks') + 1].split(',')
+    wt = '/tmp/seedeval-%s-%d' % (name, os.getpid())
+    subprocess.check_call(['git', '-C', '/repo', 'worktree', 'add', '-q', '--detach', wt])
+    try:
+        rc0, _ = sh(['/venv/bin/python', os.path.join(d, 'demo.py')], cwd=wt, timeout=900)
+        rc, o = sh(['git', 'apply', os.path.join(d, 'patch.diff')], cwd=wt)
+        if rc:
+            rc, o = sh(['git', 'apply', '--3way', os.path.join(d, 'patch.diff')], cwd=wt)
+            sh(['git', 'reset', '-q'], cwd=wt)
+        if rc:
+            print('patch does not apply:', o)
+            return 3
+        rc1, _ = sh(['/venv/bin/python', os.path.join(d, 'demo.py')], cwd=wt, timeout=900)
+        print('  demo: without=%d with=%d' % (rc0, rc1))
+        res = dict(meta.get('checks', {}))
+        for c in checks:
+            t0 = time.time()
+            rc, o = sh(['/venv/bin/python', '-m', 'vp.check', c, '--tier', 'quick'], cwd=ROOT,
+                       env=dict(os.environ, VP_REPO=wt), timeout=7200)
+            lines = o.strip().splitlines()
+            nv = sum(1 for l in lines if l.startswith('VIOLATION'))
+            first = next((l.strip() for l in lines if l.startswith('  ')), '')
+            res[c] = {'exit': rc, 'violations': nv, 'first': first[:300],
+                      'summary': lines[-1][:200] if lines else '',
+                      'wall_s': round(time.time() - t0, 1)}
+            print('  check %s: exit=%d violations=%d %s' % (c, rc, nv, first[:160]))
+        meta['checks'] = res
+        meta['demo_exit_without_change'], meta['demo_exit_with_change'] = rc0, rc1
+        meta['checks_run_at_repo_head'] = subprocess.check_output(
+            ['git', '-C', '/repo', 'rev-parse', '--short', 'HEAD']).decode().strip()
+        json.dump(meta, open(os.path.join(d, 'meta.json'), 'w'), indent=1)
+    finally:
+        subprocess.call(['git', '-C', '/repo', 'worktree', 'remove', '--force', wt])
+    return 0
+
+
 def main():
+    if sys.argv[1] == '--stored':
+        return stored(sys.argv[2], sys.argv[3:])
     pid, x = sys.argv[1].lower(), sys.argv[2]
     args = sys.argv[3:]
     checks = [pid.upper()]
